@@ -16,7 +16,7 @@ class _Unknown:
 
 
 UNKNOWN = _Unknown()
-_LIMIT = 20000
+_LIMIT = 200000
 
 
 class _Stop(Exception):
@@ -92,6 +92,7 @@ class Interp:
         self.steps = 0
         self.objects = objects
         self.created = []
+        self.yields = None
         self.exact = exact      # exact: follow return / raise / continue precisely, give up (Unknowable) on anything unknown
         self.result = None
 
@@ -310,7 +311,7 @@ class Interp:
             fn = f.id
             if fn in self.env:
                 return U
-            if fn in self.funcs and self.exact:
+            if fn in self.funcs:
                 fdef = self.funcs[fn]
                 names = [x.arg for x in fdef.args.posonlyargs + fdef.args.args]
                 bound = dict(zip(names, args))
@@ -319,9 +320,16 @@ class Interp:
                     if v is U or k.arg is None:
                         return U
                     bound[k.arg] = v
-                r = call(fdef, bound, funcs=self.funcs, budget=self)
+                try:
+                    r = call(fdef, bound, funcs=self.funcs, budget=self)
+                except Unknowable:
+                    if self.exact:
+                        raise
+                    return U
                 if r[0] == "raise":
-                    raise Unknowable(f"{fn}() raises")
+                    if self.exact:
+                        raise Unknowable(f"{fn}() raises")
+                    return U
                 return r[1]
             if fn in MODELS:
                 kw = {}
@@ -360,6 +368,9 @@ class Interp:
                     return U
                 return simple[fn](*args)
             return U
+        if isinstance(f, ast.Attribute) and isinstance(f.value, ast.Name) and f.value.id == "math" and "math" not in self.env and \
+                f.attr in MATH and not e.keywords:
+            return MATH[f.attr](*args)
         if isinstance(f, ast.Attribute):
             recv = self.ev(f.value)
             if recv is U:
@@ -422,6 +433,14 @@ class Interp:
                 return "break" if isinstance(st, ast.Break) else "continue"
             if isinstance(st, (ast.FunctionDef, ast.ClassDef)):
                 self.env[st.name] = UNKNOWN
+                continue
+            if isinstance(st, ast.Expr) and isinstance(st.value, ast.Yield) and self.exact and self.yields is not None:
+                v = self.ev(st.value.value) if st.value.value is not None else None
+                if v is UNKNOWN:
+                    raise Unknowable(f"yield at L{st.lineno}")
+                self.yields.append(v)
+                if len(self.yields) > 20000:
+                    raise _Stop()
                 continue
             if isinstance(st, ast.Expr):
                 if isinstance(st.value, ast.Call) and isinstance(st.value.func, ast.Attribute) and isinstance(st.value.func.value, ast.Name):
@@ -583,6 +602,8 @@ def _bits_for(n, require_sign_bit=False):
 
 
 MODELS = {"log2_int": _log2_int, "bits_for": _bits_for}
+import math as _math
+MATH = {"floor": _math.floor, "ceil": _math.ceil, "log2": _math.log2, "sqrt": _math.sqrt, "gcd": _math.gcd, "isclose": _math.isclose}
 
 
 def call(fn, args, consts=None, funcs=None, budget=None):
@@ -593,6 +614,9 @@ def call(fn, args, consts=None, funcs=None, budget=None):
     names = [x.arg for x in a.posonlyargs + a.args]
     defaults = dict(zip(names[len(names) - len(a.defaults):], a.defaults))
     it = Interp(env, exact=True, funcs=funcs)
+    is_gen = any(isinstance(x, (ast.Yield, ast.YieldFrom)) for x in ast.walk(fn))
+    if is_gen:
+        it.yields = []
     if budget is not None:
         it.steps = budget.steps
     for n in names:
@@ -608,4 +632,6 @@ def call(fn, args, consts=None, funcs=None, budget=None):
         raise Unknowable("interpreter limit")
     if budget is not None:
         budget.steps = it.steps
+    if is_gen:
+        return ("return", Gen(it.yields))
     return it.result if it.result is not None else ("return", None)
